@@ -1090,6 +1090,20 @@ func (h *hist) setpwReqFor(pRight int, _ []req) req {
 	return q
 }
 
+// the hammer as a case: hits > 0 is known finding 2
+func genLostLock(o *hlib.Out, in caseIn, r *hlib.Rng) {
+	budget := 2 * time.Second
+	if thoroughRun {
+		budget = 15 * time.Second
+	}
+	tr, hits := hammerLostLock(r, budget)
+	o.Emit("lost-lock-hammer", hits > 0, hlib.App("CLostLock", hlib.N(uint64(tr)), hlib.N(uint64(hits))), in,
+		map[string]interface{}{"trials": tr, "lock_undone": hits,
+			"what": "A: loop ProcWalletSetPasswd(wrong old password) on an unlocked wallet; B: ProcWalletLock -> nil, then CheckWalletStatus; lock_undone = times it still reported unlocked"})
+}
+
+var thoroughRun bool
+
 func genDict(o *hlib.Out, in caseIn, r *hlib.Rng) {
 	var it []string
 	for _, s := range pwtab {
@@ -1116,6 +1130,7 @@ func streams() []stream {
 		{"gate-window", 40, 1, func(o *hlib.Out, in caseIn, r *hlib.Rng) { genGate(o, in, r, true) }},
 		{"spin", 40, 1, genSpin},
 		{"timed", 32, 16, genTimed},
+		{"lost-lock-hammer", 1, 1, genLostLock},
 	}
 }
 
@@ -1127,6 +1142,12 @@ func main() {
 	o := hlib.NewOut(opts.OutDir)
 	defer o.Close()
 	ss := streams()
+	if os.Getenv("C38_HAMMER") != "" {
+		d, _ := time.ParseDuration(os.Getenv("C38_HAMMER"))
+		tr, hits := hammerLostLock(hlib.NewRng(opts.Seed), d)
+		fmt.Printf("lost-lock hammer: %d trials, %d hits\n", tr, hits)
+		return
+	}
 	if opts.Replay != "" {
 		var in caseIn
 		if err := hlib.ReplayInput(opts.Replay, &in); err != nil {
@@ -1146,6 +1167,7 @@ func main() {
 	mult := 1
 	if opts.Thorough() {
 		mult = 10
+		thoroughRun = true
 	}
 	names := []string{}
 	for _, s := range ss {
@@ -1180,4 +1202,45 @@ func main() {
 	}
 	sort.Strings(names)
 	fmt.Printf("hC38: %d cases (%s)\n", o.Count(), strings.Join(names, ","))
+}
+
+// ---------------------------------------------------------------- lost-lock hammer (a test)
+
+// hammerLostLock tries to hit the two-instruction race of the model's
+// C38_lost_lock_witness on the real wallet: goroutine A keeps calling
+// ProcWalletSetPasswd with a wrong old password on an UNLOCKED wallet; goroutine
+// B calls ProcWalletLock and then asks CheckWalletStatus (which waits for A's
+// call in flight).  If the status is still "unlocked" although B's lock
+// returned nil and nobody unlocked, A's CAS(1->0) fell behind B's CAS(0->1).
+func hammerLostLock(r *hlib.Rng, budget time.Duration) (trials int, hits int) {
+	w := newWorld(r)
+	defer w.e.destroy()
+	w.exec(req{K: "saveseed", P: 0})
+	w.exec(req{K: "unlock", P: 0})
+	var stop int32
+	done := make(chan struct{})
+	go func() {
+		defer close(done)
+		q := &types.ReqWalletSetPasswd{OldPass: pwtab[1], NewPass: pwtab[2]}
+		for atomic.LoadInt32(&stop) == 0 {
+			w.e.w.ProcWalletSetPasswd(q)
+		}
+	}()
+	t0 := time.Now()
+	for time.Since(t0) < budget {
+		trials++
+		if err := w.e.w.ProcWalletLock(); err != nil {
+			panic(err)
+		}
+		if ok, _ := w.e.w.CheckWalletStatus(); ok {
+			hits++
+		}
+		w.e.w.ProcWalletLock()
+		if err := w.e.w.ProcWalletUnLock(&types.WalletUnLock{Passwd: pwtab[0]}); err != nil {
+			panic(err)
+		}
+	}
+	atomic.StoreInt32(&stop, 1)
+	<-done
+	return
 }
